@@ -210,7 +210,8 @@ func addElemChanges(patchRoot, old, new *etree.Element, elemPath string) error {
 			case OpDelete:
 				e := patchRoot.CreateElement("remove")
 				oldElem := oldChildren[d.OldPos]
-				addr := calcAddr(oldElem, oldIdx)
+				// A positional address counts the siblings with the same tag that precede the element
+				addr := calcAddr(oldElem, lastNewIdx[oldElem.Tag])
 				e.CreateAttr("sel", fmt.Sprintf("%s/%s", elemPath, addr))
 				oldIdx++
 			case OpInsert:
